@@ -5,8 +5,12 @@ using namespace libphysica;
 // ---- nested integrations and sessions (grammar: checks/C12.py)
 //   lev  := kind n a b        kind: I = (func,a,b,n), F = (func,rule) on a rule computed here, U = (values,rule) with the values
 //                                    collected here, D = (func,a,b) with the default order (n is ignored)
-//   core := P fexpr | G k n a b fexpr     the innermost integrand in v0..v(d-1); G multiplies by the value overload called with k unit
-//                                    values on the rule (n,a,b): a call of the library made by the integrand (rejected when k != n)
+//                             a kind followed by 'c' (Ic, Fc, Uc, Dc) takes one more number fb: the call of this level is made under
+//                             try { .. } catch(const Abandon&) { value = fb; } inside the integrand of the level above
+//   core := P fexpr | G k n a b fexpr | T cond fexpr
+//                                    the innermost integrand in v0..v(d-1); G multiplies by the value overload called with k unit
+//                                    values on the rule (n,a,b): a call of the library made by the integrand (rejected when k != n);
+//                                    T throws Abandon where cond < 0 (the integrand is not defined there)
 struct Abandon   // thrown by the innermost integrand to abandon everything that is running
 {
 };
@@ -15,11 +19,13 @@ struct Level
 	char kind;
 	unsigned int n;
 	double a, b;
+	bool catches = false;
+	double fb	 = 0.0;
 };
 struct Core
 {
 	char kind = 'P';
-	std::shared_ptr<vh::FExpr> e;
+	std::shared_ptr<vh::FExpr> e, cond;
 	long kvals		= 0;
 	unsigned int gn = 0;
 	double ga = 0, gb = 0;
@@ -31,10 +37,16 @@ static std::vector<Level> read_levels(vh::Reader& r, long d)
 	for(long j = 0; j < d; j++)
 	{
 		Level l;
-		l.kind = r.word()[0];
-		l.n	   = (unsigned int) r.integer();
-		l.a	   = r.num();
-		l.b	   = r.num();
+		std::string w = r.word();
+		l.kind		  = w[0];
+		l.n			  = (unsigned int) r.integer();
+		l.a			  = r.num();
+		l.b			  = r.num();
+		if(w.size() > 1 && w[1] == 'c')
+		{
+			l.catches = true;
+			l.fb	  = r.num();
+		}
 		L.push_back(l);
 	}
 	return L;
@@ -50,6 +62,8 @@ static Core read_core(vh::Reader& r)
 		c.ga	= r.num();
 		c.gb	= r.num();
 	}
+	if(c.kind == 'T')
+		c.cond = vh::parse_fexpr(r);
 	c.e = vh::parse_fexpr(r);
 	return c;
 }
@@ -61,15 +75,33 @@ static double eval_core(const Core& c, const std::vector<double>& xs)
 	double v[16] = {0};
 	for(size_t k = 0; k < xs.size() && k < 16; k++)
 		v[k] = xs[k];
+	if(c.kind == 'T' && vh::eval_fexpr(*c.cond, v) < 0.0)
+		throw Abandon();
 	double e = vh::eval_fexpr(*c.e, v);
 	if(c.kind == 'G')
 		e = e * Integrate_Gauss_Legendre(std::vector<double>((size_t) c.kvals, 1.0), Compute_Gauss_Legendre_Roots_and_Weights(c.gn, c.ga, c.gb));
 	return e;
 }
+static double nest_call(const std::vector<Level>& L, size_t j, const Core& c, std::vector<double> xs);
 static double nest_level(const std::vector<Level>& L, size_t j, const Core& c, std::vector<double> xs)
 {
 	if(j == L.size())
 		return eval_core(c, xs);
+	if(!L[j].catches)
+		return nest_call(L, j, c, xs);
+	double v;
+	try
+	{
+		v = nest_call(L, j, c, xs);
+	}
+	catch(const Abandon&)
+	{
+		v = L[j].fb;
+	}
+	return v;
+}
+static double nest_call(const std::vector<Level>& L, size_t j, const Core& c, std::vector<double> xs)
+{
 	std::function<double(double)> f = [&L, j, &c, xs](double x) {
 		std::vector<double> ys = xs;
 		ys.push_back(x);
@@ -170,6 +202,38 @@ static void handler(vh::Reader& r, vh::Out& o)
 		{
 			L[0].kind = k;
 			o.f(nest_level(L, 0, c, {}));
+		}
+	}
+	else if(op == "nestx")
+	{
+		// a nested integration whose integrands may throw and handle: the outermost level through each of the three overloads,
+		// then every level through (values, rule) with the values collected here (no library frame is ever re-entered)
+		long d = r.integer();
+		auto L = read_levels(r, d);
+		Core c = read_core(r);
+		for(int variant = 0; variant < 4; variant++)
+		{
+			std::vector<Level> M = L;
+			if(variant < 3)
+				M[0].kind = "IFU"[variant];
+			else
+				for(auto& l : M)
+				{
+					if(l.kind == 'D')
+						l.n = 30;
+					l.kind = 'U';
+				}
+			g_count = g_abandon_at = 0;
+			try
+			{
+				double v = nest_level(M, 0, c, {});
+				o.f(v);
+			}
+			catch(const Abandon&)
+			{
+				o.w("A");
+				o.i(g_count);
+			}
 		}
 	}
 	else if(op == "sess")
